@@ -69,6 +69,20 @@ def gen(chk):
         cmds = ",".join(["s"] * (k + 2)) if rng.random() < 0.7 else "c"
         gram.append(G.case(next(cid), scr, st, fl, sv, cmds))
     S["grammar"] = gram
+    # (2b) stepping after rewinds: what a re-executed operation does must not depend on the walk that led to it (conditional nesting included)
+    walks = []
+    O_ = G.OP
+    fixed = [bytes([O_("OP_1"), O_("OP_IF"), O_("OP_2"), O_("OP_ELSE"), O_("OP_3"), O_("OP_ENDIF"), O_("OP_4")]),
+             bytes([O_("OP_0"), O_("OP_IF"), O_("OP_2"), O_("OP_ENDIF"), O_("OP_5")]),
+             bytes([O_("OP_1"), O_("OP_NOTIF"), O_("OP_2"), O_("OP_ELSE"), O_("OP_1"), O_("OP_IF"), O_("OP_6"), O_("OP_ENDIF"), O_("OP_ENDIF"), O_("OP_7")])]
+    for _ in range(150 if chk.tier == "quick" else 4000):
+        scr = rng.choice(fixed) if rng.random() < 0.4 else G.rand_script(rng, rng.choice([4, 8, 12]))
+        k = G.count_ops(scr) or 1
+        w = []
+        for _ in range(rng.choice([1, 2, 3])):
+            a = rng.randrange(1, k + 2); w += ["s"] * a + ["r"] * rng.randrange(1, a + 1)
+        walks.append(G.case(next(cid), scr, G.rand_stack(rng, 3), G.rand_flags(rng), rng.choice(SVS), ",".join(w + ["s"] * (k + 2))))
+    S["walks"] = walks
     # (3) numeric grid
     num = []
     t = G.ops_table()
